@@ -2,14 +2,14 @@ SPECIFICATION Spec
 CONSTANTS
   HDR = 2
   ENT = 1
-  N = 1
-  WT = {1, 2}
-  SetTypes = {1, 2}
-  OT = {7}
-  KS = {1, 2}
-  AddCs = {0, 1, 9}
+  N = 14
+  WT = {1, 2, 3, 4, 5, 6, 9, 10, 11}
+  SetTypes = {1, 2, 3, 4, 5}
+  OT = {7, 8}
+  KS = {1, 2, 4}
+  AddCs = {0, 1, 2, 9}
   RepCs <- RepCsFull
-  DescSel = {1,2,3}
+  DescSel = {1, 2, 4, 5, 6, 7, 16}
   Readers = {}
   ImplicitModes <- ImplicitRb
 INVARIANT InvWellFormed
@@ -18,6 +18,4 @@ INVARIANT InvCompact
 INVARIANT InvUnique
 INVARIANT InvNoLeak
 INVARIANT InvFamily
-INVARIANT InvSteps
-INVARIANT InvCarry
 CHECK_DEADLOCK FALSE
